@@ -911,6 +911,33 @@ func TestC14(t *testing.T) {
 		_, _ = serializeView(anc)
 		_ = iterObs(ty, anc, tree.Hash)
 		prewarm(ty, anc)
+		if round%2 == 1 {
+			// ... and as the source of a summarising link: a leaf a few levels down is replaced
+			// by its own summary (the same leaf), which rebuilds the pair nodes on the path to
+			// it; the ancestor is re-pointed at the result and hashed again before it is forked
+			gi, depth := uint64(1), 0
+			var n tree.Node = anc.Backing()
+			for {
+				p, ok := n.(*tree.PairNode)
+				if !ok {
+					break
+				}
+				if g.r.Intn(2) == 0 {
+					n, gi = p.LeftChild, gi*2
+				} else {
+					n, gi = p.RightChild, gi*2+1
+				}
+				depth++
+			}
+			if _, isLeaf := n.(*tree.Root); isLeaf && depth >= 2 && depth < 60 {
+				if link, err := anc.Backing().SummarizeInto(tree.Gindex64(gi), tree.Hash); err == nil {
+					if n2, err := link(); err == nil && n2 != nil {
+						_ = anc.SetBacking(n2)
+						anc.HashTreeRoot(tree.Hash)
+					}
+				}
+			}
+		}
 		workers := 2 + g.r.Intn(15)
 		type result struct {
 			ops []hop
